@@ -1076,7 +1076,7 @@ func genATPlanTweaked(seed uint64, tier, mode string, tweak func(g *simkit.Gen, 
 		p.Opts.Types = pickSome(g, allTypes, 2)
 	}
 	if g.Prob(0.5) {
-		p.Opts.PKKinds = pickSome(g, []string{"int", "auto", "str", "comp"}, 1)
+		p.Opts.PKKinds = pickSome(g, []string{"int", "auto", "str", "comp", "date"}, 1)
 	}
 	p.Opts.Trouble = g.Prob(0.3)
 	p.Opts.MultiRow = g.Prob(0.4)
